@@ -13,6 +13,8 @@ pub trait P19: Copy + Debug + PartialEq + NumCast + Sig + 'static {
     fn edge(d: &mut Draw) -> Self;
     /// small value that converts to every primitive type
     fn safe(d: &mut Draw) -> Self;
+    /// a value at or next to 1 (`one`) or 0: compound values that *look like* an identity / zero / unit value
+    fn near01(d: &mut Draw, one: bool) -> Self;
 }
 macro_rules! p19_int {
     ($T:ty, $U:ty, $bits:expr, $signed:expr) => {
@@ -46,6 +48,7 @@ macro_rules! p19_int {
                 if $signed && d.bool() { v.wrapping_neg() } else { v }
             }
             fn safe(d: &mut Draw) -> $T { d.int(0, 100) as $T }
+            fn near01(_d: &mut Draw, one: bool) -> $T { if one { 1 } else { 0 } }
         }
     };
 }
@@ -85,6 +88,10 @@ macro_rules! p19_float {
                 if d.bool() { -v } else { v }
             }
             fn safe(d: &mut Draw) -> $T { d.int(0, 100) as $T }
+            fn near01(d: &mut Draw, one: bool) -> $T {
+                let delta: $T = d.pick(&[0.0, 0.0, 1e-20, 1e-9, 1e-7, 4e-7, 9e-7, 1e-6, 3e-6, -1e-20, -1e-7, -5e-7, -9e-7, $T::EPSILON, -$T::EPSILON]);
+                if one { 1.0 + delta } else { delta }
+            }
         }
     };
 }
@@ -97,12 +104,16 @@ macro_rules! one_type {
         const N: usize = $n;
         let name = stringify!($C);
         // three shapes: all from the edge set; safe values with one edge value; safe only
-        let shape = $d.int(0, 3);
+        let shape = $d.int(0, 4);
         let pos = $d.below(N);
+        // side length when the components form a square (matrices; Vector4/Quaternion read as 2 x 2)
+        let side = match N { 4 => 2, 9 => 3, 16 => 4, _ => 0 };
         let comps: Vec<$S> = (0..N)
             .map(|i| match shape {
                 0 => <$S as P19>::edge($d),
                 1 | 2 => if i == pos { <$S as P19>::edge($d) } else { <$S as P19>::safe($d) },
+                // every component at or next to 0/1, in the pattern of an identity matrix where there is one
+                4 => <$S as P19>::near01($d, if side > 0 { i / side == i % side } else { i == pos }),
                 _ => <$S as P19>::safe($d),
             })
             .collect();
@@ -201,7 +212,7 @@ fn quat_to_exact<S: P19 + num_traits::Float + std::fmt::Debug>(d: &mut Draw) -> 
 
 pub fn property() -> Property {
     let mut s: Vec<SubCheck> = Vec::new();
-    const R: &str = "every generated compound value; shapes: all components from the edge set / safe values with one edge component at a drawn position / all safe";
+    const R: &str = "every generated compound value; shapes: all components from the edge set / safe values with one edge component at a drawn position / all safe / all components at or within 1e-6 of 0 and 1 in the pattern of an identity matrix";
     macro_rules! row {
         ($S:ty, $sn:expr) => {
             row!(@t $S, $sn, u8, "u8"); row!(@t $S, $sn, u16, "u16"); row!(@t $S, $sn, u32, "u32"); row!(@t $S, $sn, u64, "u64"); row!(@t $S, $sn, usize, "usize");
